@@ -183,8 +183,55 @@ class AttrGen:
             row["intent"] = "ex:ignored.on.questions"
         return row
 
+    def table_list(self) -> list:
+        """A group (sometimes a repeat) with the table-list appearance: selects on one list, now and then another
+        row in between, a nested plain group, or (error sheets) a second list / a choice_filter on the first select."""
+        rng = self.rng
+        kind = rng.choice(["group", "group", "group", "repeat"])
+        row = {"type": f"begin {kind}", "name": self.name("t")}
+        shown = rng.choice(["label", "hint", "both", "none", "label"])
+        if shown in ("label", "both"):
+            row[rng.choice(["label", "label::en"])] = "T " + row["name"]
+        if shown in ("hint", "both"):
+            row["hint"] = "TH " + row["name"]
+        row["appearance"] = rng.choice(["table-list", "table-list", "table-list minimal", "w2 table-list", "compact table-list w1"])
+        if rng.random() < 0.2:
+            row["intent"] = "ex:tl.app"
+        ln = rng.choice(["l1", "l2"])
+        self.lists.setdefault(ln, [{"list_name": ln, "name": "a", "label": "A"}, {"list_name": ln, "name": "b", "label": "B"}])
+        body = []
+        for i in range(rng.randint(1, 4)):
+            st = rng.choice(["select_one", "select_one", "select_multiple", "rank"])
+            q = {"type": f"{st} {ln}", "name": self.name(), "label": "L"}
+            if rng.random() < 0.3:
+                q["appearance"] = rng.choice(["minimal", "label", "list-nolabel", "w1"])
+            if rng.random() < 0.2:
+                q["hint"] = "H"
+            if rng.random() < 0.12 and st != "rank":
+                q["type"] += rng.choice([" or_other", " or other"])
+            if rng.random() < 0.1:
+                del q["label"]
+                q[self.calc_col] = "1 + 1"
+            if self.err_mode and rng.random() < 0.15:
+                other = "l2" if ln == "l1" else "l1"
+                self.lists.setdefault(other, [{"list_name": other, "name": "a", "label": "A"}])
+                q["type"] = f"{st} {other}"
+            if self.err_mode and rng.random() < 0.1:
+                q["choice_filter"] = "true()"
+            body.append(q)
+            if rng.random() < 0.15:
+                body.append({"type": rng.choice(["note", "text", "integer"]), "name": self.name(), "label": "between"})
+            if rng.random() < 0.08:
+                body += [{"type": "begin group", "name": self.name("g"), "label": "inner"},
+                         {"type": f"select_one {ln}", "name": self.name(), "label": "in"},
+                         {"type": "end group"},
+                         {"type": f"select_one {ln}", "name": self.name(), "label": "after inner"}]
+        return [row, *body, {"type": f"end {kind}"}]
+
     def section(self, depth: int, in_repeat: bool) -> list:
         rng = self.rng
+        if rng.random() < 0.12:
+            return self.table_list()
         kind = rng.choice(["group", "group", "repeat"])
         row = {"type": f"begin {kind}", "name": self.name("g" if kind == "group" else "r")}
         if rng.random() < 0.6:
